@@ -211,7 +211,7 @@ def parse_vcf(header, body):
     return cols, recs
 
 
-def run_vcf(case, arr, binarr):
+def run_vcf(case, arr, binarr, text=None):
     from cnvlib import export
     cfg = case['cfg']
     try:
@@ -221,7 +221,144 @@ def run_vcf(case, arr, binarr):
         return Err('AssertionError')
     except ValueError:
         return Err('ValueError')
+    if text is not None:
+        text['header'], text['body'] = header, body
     return parse_vcf(header, body)
+
+
+# ---- the VCF text layer -------------------------------------------------------------------------
+
+HEADER_FIXED = [
+    '##INFO=<ID=CIEND,Number=2,Type=Integer,Description="Confidence interval around END for imprecise variants">',
+    '##INFO=<ID=CIPOS,Number=2,Type=Integer,Description="Confidence interval around POS for imprecise variants">',
+    '##INFO=<ID=END,Number=1,Type=Integer,Description="End position of the variant described in this record">',
+    '##INFO=<ID=IMPRECISE,Number=0,Type=Flag,Description="Imprecise structural variation">',
+    '##INFO=<ID=SVLEN,Number=1,Type=Integer,Description="Difference in length between REF and ALT alleles">',
+    '##INFO=<ID=SVTYPE,Number=1,Type=String,Description="Type of structural variant">',
+    '##INFO=<ID=FOLD_CHANGE,Number=1,Type=Float,Description="Fold change">',
+    '##INFO=<ID=FOLD_CHANGE_LOG,Number=1,Type=Float,Description="Log fold change">',
+    '##INFO=<ID=PROBES,Number=1,Type=Integer,Description="Number of probes in CNV">',
+    '##ALT=<ID=DEL,Description="Deletion">',
+    '##ALT=<ID=DUP,Description="Duplication">',
+    '##ALT=<ID=CNV,Description="Copy number variable region">',
+    '##FORMAT=<ID=GT,Number=1,Type=String,Description="Genotype">',
+    '##FORMAT=<ID=GQ,Number=1,Type=Float,Description="Genotype quality">',
+    '##FORMAT=<ID=CN,Number=1,Type=Integer,Description="Copy number genotype for imprecise events">',
+    '##FORMAT=<ID=CNQ,Number=1,Type=Float,Description="Copy number genotype quality for imprecise events">',
+]
+
+
+def date_candidates():
+    """VCF_HEADER is formatted when cnvlib.export is imported: today, or yesterday when the run crosses midnight"""
+    import time
+    now = time.time()
+    return [time.strftime('%Y%m%d', time.localtime(now)), time.strftime('%Y%m%d', time.localtime(now - 86400))]
+
+
+def cnvkit_version():
+    from cnvlib._version import __version__
+    return __version__
+
+
+def float_tokens(v):
+    """the texts of 2.0 ** log2 and of log2 in the INFO field (Python float printing: an oracle of the text model)"""
+    v = float(v)
+    return [str(2.0 ** v), str(v)]
+
+
+def split_lines(text):
+    lines = text.split('\n')
+    if lines and lines[-1] == '':
+        lines.pop()
+    return lines
+
+
+def py_ci(bins, rows):
+    """direct oracle for CIPOS / CIEND: per table row [pos_left, pos_right, end_left, end_right] (None = no bin)"""
+    margins = []
+    for r in rows:
+        ov = [(s, e) for c, s, e in bins if c == r['chrom'] and s < r['end'] and e > r['start']]
+        margins.append((ov[0][1] - r['start'], r['end'] - ov[-1][0]) if ov else (None, None))
+    out = []
+    for i in range(len(rows)):
+        pl = 0 if i == 0 else (None if margins[i - 1][1] is None else -margins[i - 1][1])
+        er = 0 if i == len(rows) - 1 else margins[i + 1][0]
+        out.append([pl, margins[i][0], margins[i][1], er])
+    return out
+
+
+def grouped_by_chrom(rows):
+    seen, last = set(), None
+    for r in rows:
+        if r['chrom'] != last:
+            if r['chrom'] in seen:
+                return False
+            seen.add(r['chrom'])
+            last = r['chrom']
+    return True
+
+
+def expected_text_line(row, n, x, probes_val):
+    """direct oracle for one record line, up to (not including) the CIPOS / CIEND items"""
+    w = expected_vcf_record(row, n, x, probes_val)
+    t = float_tokens(row['log2'])
+    info = 'IMPRECISE;SVTYPE=%s;END=%d;SVLEN=%d;FOLD_CHANGE=%s;FOLD_CHANGE_LOG=%s;PROBES=%d' % (
+        w['svtype'], w['end'], w['svlen'], t[0], t[1], probes_val)
+    return [w['chrom'], str(w['pos']), '.', 'N', w['alt'], '.', '.', info, w['format'], w['sample']]
+
+
+def check_vcf_text(ck, case, text, model_text, truth, amb, have_ci):
+    """code text vs direct oracle (header, column line, record lines) and vs the model's text; -> #violations"""
+    rows, probes, cfg = case['rows'], case['probes'], case['cfg']
+    nv = 0
+    hl = split_lines(text['header'])
+    bl = split_lines(text['body'])
+    sid = case.get('sample_id') or 'gen'
+    dates = date_candidates()
+    want_hdrs = [['##fileformat=VCFv4.2', '##fileDate=' + d, '##source=CNVkit v' + cnvkit_version()] + HEADER_FIXED for d in dates]
+    if hl not in want_hdrs:
+        ck.violation('VCF header lines are not the fixed VCFv4.2 header with today\'s date and the CNVkit version', case,
+                     clause='C20_vcf_text_header', code=hl[:4], expected=want_hdrs[0][:4])
+        return 1
+    want_cols = '\t'.join(['#CHROM', 'POS', 'ID', 'REF', 'ALT', 'QUAL', 'FILTER', 'INFO', 'FORMAT', sid])
+    if not bl or bl[0] != want_cols:
+        ck.violation('VCF column line text is %r' % (bl[:1],), case, clause='C20_vcf_text_columns', code=bl[:1], expected=want_cols)
+        return 1
+    if truth is not None and not amb:
+        want = []
+        for row, (n, x, _) in zip(rows, truth):
+            if n != x and probes == 'int' and row['probes'] >= 0:
+                want.append('\t'.join(expected_text_line(row, n, x, row['probes'])))
+        got = []
+        for l in bl[1:]:
+            f = l.split('\t')
+            if len(f) == 10 and have_ci:
+                items = f[7].split(';')
+                if len(items) >= 2 and items[-2].startswith('CIPOS=(') and items[-1].startswith('CIEND=(') \
+                        and items[-2].endswith(')') and items[-1].endswith(')'):
+                    f[7] = ';'.join(items[:-2])
+                else:
+                    f[7] = f[7] + ' <no CIPOS/CIEND at the end>'
+            got.append('\t'.join(f))
+        if got != want:
+            k = next((i for i, (a, b) in enumerate(zip(got, want)) if a != b), min(len(got), len(want)))
+            ck.violation('VCF record line %d is not chrom, POS, ".", "N", <SVTYPE>, ".", ".", INFO, FORMAT, sample joined by tabs' % k, case,
+                         clause='C20_vcf_text_line', code=got[k:k + 1], expected=want[k:k + 1])
+            return 1
+    # model vs code, on the text
+    if model_text is None or amb:
+        return nv
+    m_hdr, m_body = model_text
+    if isinstance(m_body, Err):
+        ck.tie_break('model VCF text fails where the code does not', case, code=bl[:2], model=m_body)
+        return nv
+    m_hdr2 = [('##fileDate=' + dates[1]) if l == '##fileDate=' + dates[0] and hl[1] != l else l for l in m_hdr]
+    if m_hdr2 != hl:
+        ck.tie_break('model VCF header lines differ from the code', case, code=hl[:4], model=m_hdr[:4])
+    if m_body != bl:
+        k = next((i for i, (a, b) in enumerate(zip(bl, m_body)) if a != b), min(len(bl), len(m_body)))
+        ck.tie_break('model VCF text line %d differs from the code' % k, case, code=bl[k:k + 1], model=m_body[k:k + 1])
+    return nv
 
 
 def rec_list(r):
@@ -278,7 +415,7 @@ def expected_vcf_record(row, n, x, probes_val):
                 svtype=svtype, end=row['end'], svlen=(-d if loss else d), probes=probes_val, format=fmt, sample=sample)
 
 
-def check_bedvcf(ck, case, scratch, model_out, count=True, src=''):
+def check_bedvcf(ck, case, scratch, model_out, count=True, src='', extra=None):
     """model_out: outputs of bedvcf_requests(case) in order"""
     cfg, rows, probes, has_cn = case['cfg'], case['rows'], case['probes'], case['has_cn']
     consistent = is_consistent(cfg)
@@ -382,7 +519,10 @@ def check_bedvcf(ck, case, scratch, model_out, count=True, src=''):
                 ck.tie_break('model export_bed(%s) differs from the code' % show, case, code=c2[:6], model=m2[:6], show=show)
 
     # ---- VCF -------------------------------------------------------------------------------
-    code = run_vcf(case, arr, binarr)
+    text = {}
+    extra = extra or {}
+    have_ci = bool(case.get('bins'))
+    code = run_vcf(case, arr, binarr, text)
     cls = '%svcf|%s|%s|probes-%s%s' % (src, 'cn' if has_cn else 'log2', 'consistent' if consistent else 'edge', probes,
                                       '|ci' if binarr is not None else '')
     m_hdr, m_recs = m_vcf
@@ -443,6 +583,24 @@ def check_bedvcf(ck, case, scratch, model_out, count=True, src=''):
                     viol('BED variant rows and VCF records name different segments', 'C20_vcf_rows',
                          code={'bed': bed_variant_keys, 'vcf': vkeys})
                     bad = True
+            # CIPOS / CIEND: carried iff a (non-empty) .cnr is given, and equal to the margins to the first / last bin
+            if not bad:
+                if any((g['ci'] is not None) != have_ci for g in recs):
+                    viol('export_vcf: CIPOS/CIEND are %s although %s .cnr is given' % (
+                        'missing' if have_ci else 'present', 'a' if have_ci else 'no'), 'C20_vcf_ci',
+                        code=[rec_list(r)[13] for r in recs][:6])
+                    bad = True
+                elif have_ci and grouped_by_chrom(rows):
+                    want_ci = py_ci(case['bins'], rows)
+                    if extra.get('spec_ci') is not None and extra['spec_ci'] != want_ci:
+                        raise RuntimeError('Coq Spec.Export.sp_ci disagrees with the python oracle on %r: %r vs %r' % (
+                            case, extra['spec_ci'], want_ci))
+                    for i, g in zip(idx, recs):
+                        if g['ci'] != want_ci[i]:
+                            viol('export_vcf: CIPOS/CIEND of segment %s are not the margins to the first / last bin inside it '
+                                 '(and its neighbours\')' % (keys[i],), 'C20_vcf_ci', code=g['ci'], expected=want_ci[i], row_index=i)
+                            bad = True
+                            break
     if count:
         ck.count(['vcf', case], nontrivial=bool(recs), cls=cls)
     if bad:
@@ -459,6 +617,8 @@ def check_bedvcf(ck, case, scratch, model_out, count=True, src=''):
             pass        # CI columns of neighbours shift when a record is dropped: nothing more to compare
         elif not recs_equal(c2, m2):
             ck.tie_break('model export_vcf differs from the code', case, code=[rec_list(r) for r in c2[:4]], model=m2[:4])
+    # the emitted text: header lines, column line, record lines (direct oracle + model)
+    nv += check_vcf_text(ck, case, text, extra.get('text'), truth if consistent else None, bool(amb_rows), have_ci)
     # assign_ci_start_end on its own: brute-force overlap oracle
     if binarr is not None and rows:
         nv += check_assign_ci(ck, case, arr, binarr)
@@ -648,9 +808,33 @@ def run_bedvcf_cases(ck, cases, scratch, count=True, src=''):
         res = vlib.model_batch_parallel(entry, [v for _, _, v in items])
         for (ci, j, _), r in zip(items, res):
             outs[ci][j] = r
+    # second phase: the text layer (needs the float tokens of the records the model emits) and the CI specification
+    version, date = cnvkit_version(), date_candidates()[0]
+    treq, tidx, sreq, sidx = [], [], [], []
+    for ci, (c, o) in enumerate(zip(cases, outs)):
+        m_vcf = o[3]
+        if isinstance(m_vcf, list) and len(m_vcf) == 2 and isinstance(m_vcf[1], list):
+            by_end = {}
+            for r in c['rows']:
+                by_end.setdefault((r['chrom'], r['end']), r)
+            toks = [float_tokens(by_end[(m[0], m[8])]['log2']) if (m[0], m[8]) in by_end else ['?', '?'] for m in m_vcf[1]]
+            mc = model_cfg(c['cfg'], c['has_cn'])
+            segs = [model_seg(r, c['probes']) for r in c['rows']]
+            treq.append([mc, c.get('sample_id'), 'gen', segs, c.get('bins'), toks, date, version])
+            tidx.append(ci)
+        if c.get('bins') and c['rows'] and grouped_by_chrom(c['rows']):
+            sreq.append([c['bins'], [model_seg(r, c['probes']) for r in c['rows']]])
+            sidx.append(ci)
+    extras = [dict() for _ in cases]
+    if treq:
+        for ci, r in zip(tidx, vlib.model_batch_parallel('c20_vcf_text', treq)):
+            extras[ci]['text'] = r
+    if sreq:
+        for ci, r in zip(sidx, vlib.model_batch('c20_spec_ci', sreq)):
+            extras[ci]['spec_ci'] = r
     nv = 0
-    for c, o in zip(cases, outs):
-        nv += check_bedvcf(ck, c, scratch, o, count=count, src=src)
+    for c, o, x in zip(cases, outs, extras):
+        nv += check_bedvcf(ck, c, scratch, o, count=count, src=src, extra=x)
     return nv
 
 
@@ -1097,6 +1281,449 @@ def check_nexus(ck, case, scratch, count=True):
 
 
 # --------------------------------------------------------------------------------------
+# nexus-ogt: bins x per-bin BAF
+
+
+def make_varr(variants, paired):
+    from cnvlib.vary import VariantArray
+    d = {
+        'chromosome': pd.Series([v['chrom'] for v in variants], dtype=object),
+        'start': np.array([v['start'] for v in variants], dtype=np.int64),
+        'end': np.array([v['end'] for v in variants], dtype=np.int64),
+        'ref': pd.Series(['A'] * len(variants), dtype=object),
+        'alt': pd.Series(['C'] * len(variants), dtype=object),
+        'zygosity': np.array([v['zyg'] for v in variants], dtype=np.float64),
+        'alt_freq': np.array([np.nan if v['freq'] is None else v['freq'] for v in variants], dtype=np.float64),
+    }
+    if paired:
+        d['n_zygosity'] = np.array([v['n_zyg'] for v in variants], dtype=np.float64)
+    return VariantArray(pd.DataFrame(d), {'sample_id': 'v'})
+
+
+def varr_to_model(varr):
+    """a VariantArray as the model sees it: [label, chrom, start, end, zygosity, alt_freq|None, n_zygosity|None]"""
+    d = varr.data
+    paired = 'n_zygosity' in d
+    out = []
+    for i in range(len(d)):
+        f = float(d['alt_freq'].iat[i])
+        out.append([int(d.index[i]) if isinstance(d.index[i], (int, np.integer)) else i, str(d['chromosome'].iat[i]),
+                    int(d['start'].iat[i]), int(d['end'].iat[i]),
+                    F(float(d['zygosity'].iat[i])) if 'zygosity' in d else F(1, 2), None if f != f else F(f),
+                    F(float(d['n_zygosity'].iat[i])) if paired else None])
+    return paired, out
+
+
+def make_ogt_cna(bins, has_weight):
+    from cnvlib.cnary import CopyNumArray
+    d = {
+        'chromosome': pd.Series([b['chrom'] for b in bins], dtype=object),
+        'start': np.array([b['start'] for b in bins], dtype=np.int64),
+        'end': np.array([b['end'] for b in bins], dtype=np.int64),
+        'gene': pd.Series(['-'] * len(bins), dtype=object),
+        'log2': np.array([b['log2'] for b in bins], dtype=np.float64),
+    }
+    if has_weight:
+        d['weight'] = np.array([np.nan if b['weight'] is None else b['weight'] for b in bins], dtype=np.float64)
+    frame = pd.DataFrame(d)
+    if any('label' in b for b in bins):
+        frame.index = [b.get('label', i) for i, b in enumerate(bins)]
+    return CopyNumArray(frame, {'sample_id': 'bins'})
+
+
+def fmedian(vals):
+    s = sorted(vals)
+    n = len(s)
+    return s[n // 2] if n % 2 else (s[n // 2 - 1] + s[n // 2]) / 2
+
+
+def py_baf(variants, paired, b):
+    """direct oracle for one bin (C18's clause, restated): the heterozygous variants sharing a base with the bin; none -> missing,
+    one -> its frequency as it is, several -> mirrored to the side of the majority (median > 1/2), then the median"""
+    germ = lambda v: v['n_zyg'] if paired else v['zyg']
+    het = [v for v in variants if germ(v) not in (0.0, 1.0)] or variants
+    hits = [v['freq'] for v in het if v['chrom'] == b['chrom'] and v['start'] < b['end'] and v['end'] > b['start']]
+    if not hits:
+        return None
+    if len(hits) == 1:
+        return None if hits[0] is None else F(hits[0])
+    fin = [F(h) for h in hits if h is not None]
+    if not fin:
+        return None
+    above = fmedian(fin) > HALF
+    return fmedian([(HALF + abs(x - HALF)) if above else (HALF - abs(x - HALF)) for x in fin])
+
+
+def gen_ogt_case(rng):
+    style = rng.random() < 0.5
+    base = natural_table(rng, style, nmax_chrom=3, nmax_rows=4)
+    if rng.random() < 0.04:
+        base = []
+    has_weight = rng.random() < 0.8
+    bins = [dict(chrom=r['chrom'], start=r['start'], end=r['end'], log2=r['log2'],
+                 weight=rng.choice([0.0, 0.3, 0.5, 0.5, 0.9, 1.0, round(rng.random(), 3), None])) for r in base]
+    paired = rng.random() < 0.3
+    variants = []
+    for b in bins:
+        for _ in range(rng.choice([0, 0, 1, 1, 2, 3, 4])):
+            if b['end'] - b['start'] < 1:
+                continue
+            p = rng.randint(b['start'], b['end'] - 1)
+            variants.append(dict(chrom=b['chrom'], start=p, end=p + rng.choice([1, 1, 1, 2, 5]),
+                                 zyg=rng.choice([0.5, 0.5, 0.5, 0.0, 1.0]), n_zyg=rng.choice([0.5, 0.5, 0.0, 1.0]),
+                                 freq=rng.choice([0.5, 0.25, 0.75, round(rng.random(), 3), round(rng.random(), 3), 0.0, 1.0, None])))
+        if rng.random() < 0.2:
+            # just outside the bin / abutting
+            variants.append(dict(chrom=b['chrom'], start=b['end'], end=b['end'] + 1, zyg=0.5, n_zyg=0.5, freq=0.9))
+    if rng.random() < 0.1:
+        for v in variants:
+            v['zyg'] = v['n_zyg'] = rng.choice([0.0, 1.0])     # nothing heterozygous: the documented fallback keeps all
+    variants.sort(key=lambda v: ([b['chrom'] for b in bins].index(v['chrom']), v['start'], v['end']))
+    how = rng.choice(['default'] * 8 + ['gaps', 'permuted'])
+    if how == 'gaps':                      # a table filtered by the caller: labels kept, rows removed
+        lab = 0
+        for b in bins:
+            lab += rng.choice([0, 0, 1, 2])
+            b['label'] = lab
+            lab += 1
+    elif how == 'permuted':
+        perm = list(range(len(bins)))
+        rng.shuffle(perm)
+        for b, l in zip(bins, perm):
+            b['label'] = l
+    return dict(kind='ogt', bins=bins, has_weight=has_weight, variants=variants, paired=paired,
+                min_weight=rng.choice([0.0, 0.0, 0.3, 0.5, 0.5, 1.0, 2.0, -1.0]))
+
+
+def ogt_frame_rows(tbl):
+    cols = list(tbl.columns)
+    vals = tbl.values.tolist()
+    out = []
+    for r in vals:
+        bf = r[4]
+        out.append([str(r[0]), int(r[1]), int(r[2]), float(r[3]), None if bf != bf else float(bf)])
+    return cols, out
+
+
+def check_ogt(ck, case, scratch, count=True, varr=None, src=''):
+    from cnvlib import export
+    from cnvlib.cmdutil import write_dataframe
+    bins, hw, mw = case['bins'], case['has_weight'], case['min_weight']
+    if varr is None:
+        varr = make_varr(case['variants'], case['paired'])
+    paired, mvars = varr_to_model(varr)
+    mbins = [[b['chrom'], b['start'], b['end'], F(b['log2']), None if (not hw or b['weight'] is None) else F(b['weight'])] for b in bins]
+    model, m_keep = vlib.model_batch('c20_nexus_ogt', [[paired, mvars, F(mw), hw, mbins]])[0]
+    keep = [not (mw != 0 and hw and b['weight'] is not None and b['weight'] < mw) for b in bins]
+    if m_keep != keep:
+        raise RuntimeError('Coq Spec.Export.sp_ogt_keeps disagrees with the python oracle on %r' % (case,))
+    kept = [b for b, k in zip(bins, keep) if k]
+    cls = '%sogt|%s|%s' % (src, 'weights' if hw else 'no weight column', 'threshold' if mw else 'no threshold')
+    if count:
+        nontrivial = bool(kept)
+        if nontrivial and case.get('variants') is not None:
+            nontrivial = any(py_baf(case['variants'], case['paired'], b) is not None for b in kept)
+        ck.count(case, nontrivial=nontrivial, cls=cls)
+    given = make_ogt_cna(bins, hw)
+    before = (list(given.data.index), given.data['start'].tolist(), given.data['log2'].tolist())
+    try:
+        tbl = export.export_nexus_ogt(given, varr, mw)
+    except TypeError:
+        if kept:
+            ck.violation('export_nexus_ogt fails (TypeError) although bins remain', case, clause='C20_nexus_ogt_rows', code='TypeError')
+            return 1
+        if model != Err('TypeError'):
+            ck.tie_break('error behaviour of export_nexus_ogt differs from the model', case, code='TypeError', model=model)
+        return 0
+    cols, rows = ogt_frame_rows(tbl)
+    want_cols = ['Chromosome', 'Position', 'Position', 'Log R Ratio', 'B-Allele Frequency']
+    bad = None
+    if cols != want_cols or len(rows) != len(kept):
+        bad = 'columns / row count (%d rows for %d bins kept)' % (len(rows), len(kept))
+    else:
+        for i, (r, b) in enumerate(zip(rows, kept)):
+            if r[:3] != [b['chrom'], b['start'], b['end']] or not vlib.close(r[3], F(b['log2'])):
+                bad = 'row %d is not the bin %s:%d-%d with its log2' % (i, b['chrom'], b['start'], b['end'])
+                break
+            if case.get('variants') is not None:
+                w = py_baf(case['variants'], case['paired'], b)
+                if (w is None) != (r[4] is None) or (w is not None and not vlib.close(r[4], w)):
+                    bad = 'row %d: BAF %r, expected %r' % (i, r[4], None if w is None else float(w))
+                    break
+    if bad:
+        ck.violation('nexus-ogt table is not one row per kept bin with chromosome, start, end, log2 and the bin\'s BAF: %s' % bad, case,
+                     clause='C20_nexus_ogt', code=rows[:6])
+        return 1
+    # the caller's .cnr array is left as it was (repaired in /repo 5dbf38e: low-weight bins were dropped from it)
+    after = (list(given.data.index), given.data['start'].tolist(), given.data['log2'].tolist())
+    if after != before:
+        ck.violation('export_nexus_ogt changes the .cnr array it is given (%d rows before, %d after)' % (len(before[0]), len(after[0])), case,
+                     clause='C20_nexus_ogt_rows', code=after[1][:8], expected=before[1][:8])
+        return 1
+    # the written file
+    path = os.path.join(scratch, 'out.ogt')
+    write_dataframe(path, tbl)
+    lines = read_lines(path)
+    os.remove(path)
+    okf = lines[0] == want_cols and len(lines) == len(rows) + 1 and all(
+        f[:3] == [r[0], str(r[1]), str(r[2])] and vlib.close(float(f[3]), r[3], 1e-5)
+        and ((f[4] == '') == (r[4] is None)) and (r[4] is None or vlib.close(float(f[4]), r[4], 1e-5)) for f, r in zip(lines[1:], rows))
+    if not okf:
+        ck.violation('nexus-ogt file differs from the table', case, clause='C20_nexus_ogt', code=lines[:5])
+        return 1
+    if isinstance(model, Err) or len(model) != len(rows) or not all(
+            m[:3] == r[:3] and vlib.close(r[3], m[3]) and (m[4] is None) == (r[4] is None) and (m[4] is None or vlib.close(r[4], m[4]))
+            for m, r in zip(model, rows)):
+        ck.tie_break('model export_nexus_ogt differs from the code', case, code=rows[:6], model=model if isinstance(model, Err) else model[:6])
+    return 0
+
+
+# --------------------------------------------------------------------------------------
+# THetA: per-segment tumor / normal read-count estimates
+
+
+def py_is_auto(name):
+    d = name[3:] if name.startswith('chr') else name
+    return d != '' and all(c in '0123456789' for c in d)
+
+
+def make_theta_cna(rows, hp, hw, sid='tumor'):
+    from cnvlib.cnary import CopyNumArray
+    d = {
+        'chromosome': pd.Series([r['chrom'] for r in rows], dtype=object),
+        'start': np.array([r['start'] for r in rows], dtype=np.int64),
+        'end': np.array([r['end'] for r in rows], dtype=np.int64),
+        'gene': pd.Series(['-'] * len(rows), dtype=object),
+        'log2': np.array([r['log2'] for r in rows], dtype=np.float64),
+    }
+    if hp:
+        d['probes'] = np.array([r['probes'] for r in rows], dtype=np.int64)
+    if hw:
+        d['weight'] = np.array([r['weight'] for r in rows], dtype=np.float64)
+    return CopyNumArray(pd.DataFrame(d), {'sample_id': sid})
+
+
+def theta_oracle(case, en):
+    """direct oracle: (kept rows, keys [[id, chrm, start, end]], tumor values, normal values (None = missing), reference means)"""
+    rows, hp, hw, normal = case['rows'], case['hp'], case['hw'], case['normal']
+    kept = [r for r in rows if py_is_auto(r['chrom'])] or rows
+    names = []
+    for r in kept:
+        if r['chrom'] not in names:
+            names.append(r['chrom'])
+    keys = []
+    for r in kept:
+        ch = names.index(r['chrom']) + 1
+        keys.append(['start_%d_%d:end_%d_%d' % (ch, r['start'], ch, r['end']), ch, r['start'], r['end']])
+    val = lambda e, nb: nb * 200 * (e * 500) / 100
+    if normal:
+        nk = [b for b in normal if py_is_auto(b['chrom'])] or normal
+        means = []
+        for r in kept:
+            ov = [F(b['log2']) for b in nk if b['chrom'] == r['chrom'] and b['start'] < r['end'] and b['end'] > r['start']]
+            means.append(sum(ov) / len(ov) if ov else None)
+        nb = [F(r['probes']) for r in kept] if hp else None
+        if nb is None:
+            return kept, keys, None, None, means
+        tv = [val(exp2(r['log2']), n) for r, n in zip(kept, nb)]
+        nv = [None if m is None else val(e, n) for m, e, n in zip(means, en, nb)]
+        return kept, keys, tv, nv, means
+    ws = [F(r['weight']) for r in kept]
+    if hw and any(w > 1 for w in ws):
+        d = max(ws) / (sum(ws) / len(ws))
+        nb = [w / d for w in ws]
+    else:
+        if hp:
+            nb = [F(r['probes']) for r in kept]
+        else:
+            sizes = [F(r['end'] - r['start']) for r in kept]
+            m = sum(sizes) / len(sizes)
+            nb = [s / m for s in sizes]
+        if hw:
+            m = sum(ws) / len(ws)
+            nb = [b * (w / m) for b, w in zip(nb, ws)]
+    tv = [val(exp2(r['log2']), n) for r, n in zip(kept, nb)]
+    nv = [val(F(1), n) for n in nb]
+    return kept, keys, tv, nv, [F(0)] * len(kept)
+
+
+def count_ok(code, v, exact_ties):
+    """code's integer against round-half-even of the exact value; None = ambiguous (not compared)"""
+    if v is None:
+        return code == 0
+    d = v - math.floor(v)
+    if abs(float(d - HALF)) < AMBIG * max(1.0, float(v)) and not (exact_ties and d == HALF):
+        return None
+    return code == rhe(v)
+
+
+def gen_theta_case(rng):
+    style = rng.random() < 0.5
+    kind = rng.choice(['mixed'] * 6 + ['sex-only', 'odd-names'])
+    rows = natural_table(rng, style, nmax_chrom=3, nmax_rows=3, sex=True)
+    if kind == 'sex-only':
+        rows = [r for r in rows if not py_is_auto(r['chrom'])] or [dict(rows[0], chrom='chrX' if style else 'X')]
+    elif kind == 'odd-names':
+        last = rows[-1]
+        rows.append(dict(last, chrom=rng.choice(['chr1_alt', 'chrUn', 'chr', 'MT', 'chr05']), start=0, end=rng.randint(1, 500)))
+    if rng.random() < 0.04:
+        rows = []
+    hp, hw = rng.random() < 0.75, rng.random() < 0.5
+    new_w = rng.random() < 0.5
+    for r in rows:
+        r['probes'] = rng.choice([1, 1, 2, 3, 5, 7, rng.randint(1, 400)])
+        r['weight'] = rng.choice([0.25, 0.5, 1.0, 0.75, round(rng.uniform(0.05, 1.0), 3)]) * (rng.choice([1, 2, 4, r['probes']]) if new_w else 1)
+        # 2^log2 * probes * 1000 on .5 (exact ties), next to it, or anywhere
+        r['log2'] = rng.choice([-4.0, -5.0, -3.0, -4.0 + rng.choice([-1e-9, 1e-9]), 0.0, 1.0, rng.uniform(-6, 3), round(rng.uniform(-3, 3), 2)])
+    normal = None
+    how = rng.choice(['none', 'none', 'bins', 'bins', 'bins', 'empty', 'elsewhere'])
+    if how == 'empty':
+        normal = []
+    elif how == 'elsewhere':
+        normal = [dict(chrom='chr21' if style else '21', start=0, end=100, log2=0.3)]
+    elif how == 'bins' and rows:
+        normal = []
+        seen = []
+        for r in rows:
+            if r['chrom'] not in seen:
+                seen.append(r['chrom'])
+        for c in seen:
+            if rng.random() < 0.15:
+                continue
+            segs = [r for r in rows if r['chrom'] == c]
+            cuts = {segs[0]['start'], segs[-1]['end'] + rng.choice([0, 10])}
+            for r in segs:
+                cuts.add(r['start'])
+                if rng.random() < 0.7:
+                    cuts.add(r['end'])
+                for _ in range(rng.randint(0, 3)):
+                    if r['end'] - r['start'] > 2:
+                        cuts.add(rng.randint(r['start'] + 1, r['end'] - 1))
+            cuts = sorted(cuts)
+            for a, b in zip(cuts, cuts[1:]):
+                if rng.random() < 0.85:
+                    normal.append(dict(chrom=c, start=a, end=b, log2=rng.choice([0.0, -1.0, round(rng.uniform(-1, 1), 3), rng.uniform(-2, 2)])))
+        if rng.random() < 0.3:
+            normal.append(dict(chrom='chrM' if style else 'MT', start=0, end=50, log2=-2.0))
+    ungrouped = False
+    if len(rows) > 2 and rng.random() < 0.08:
+        # chromosomes interleaved: outside the precondition of the row-wise statements (model vs code only)
+        rows = rows[1:] + rows[:1]
+        ungrouped = not grouped_by_chrom(rows)
+    return dict(kind='theta', rows=rows, hp=hp, hw=hw, normal=normal, ungrouped=ungrouped)
+
+
+def check_theta(ck, case, scratch, count=True, src=''):
+    from cnvlib import export
+    rows, hp, hw, normal = case['rows'], case['hp'], case['hw'], case['normal']
+    tumor = make_theta_cna(rows, hp, hw)
+    ncna = None
+    if normal is not None:
+        ncna = make_theta_cna(normal, False, False, sid='normal')
+    # the oracle values 2 ** ref_mean, from the code's own float means
+    en, code_means = [], None
+    kept_rows = [r for r in rows if py_is_auto(r['chrom'])] or rows
+    if normal and rows:
+        code_means, _ = export.ref_means_nbins(make_theta_cna(rows, hp, hw).autosomes(also=[]),
+                                               make_theta_cna(normal, False, False).autosomes(also=[]))
+        code_means = [None if m != m else float(m) for m in code_means]
+        en = [F(1) if m is None else exp2(m) for m in code_means]
+    mrows = [[r['chrom'], r['start'], r['end'], exp2(r['log2']), int(r['probes']), F(r['weight'])] for r in rows]
+    mnorm = None if normal is None else [[b['chrom'], b['start'], b['end'], F(b['log2'])] for b in normal]
+    model = vlib.model_batch('c20_theta', [[hp, hw, mrows, mnorm, en]])[0]
+    cls = '%stheta|%s|%s|%s%s' % (src, 'probes' if hp else 'no probes', 'weight' if hw else 'no weight',
+                                  'normal' if normal else 'no normal', '|ungrouped' if case.get('ungrouped') else '')
+    if count:
+        ck.count(case, nontrivial=bool(rows) and len(kept_rows) < len(rows) or bool(normal), cls=cls)
+    try:
+        tbl = export.export_theta(tumor, ncna)
+    except AttributeError:
+        # bin counts as an ndarray have no .fillna: a normal is given and the segments have no probes column
+        if not (normal and not hp and rows):
+            ck.violation('export_theta raises AttributeError', case, clause='C20_theta_rows', code='AttributeError')
+            return 1
+        if model != Err('AttributeError'):
+            ck.tie_break('error behaviour of export_theta differs from the model', case, code='AttributeError', model=model)
+        return 0
+    want_cols = ['#ID', 'chrm', 'start', 'end', 'tumorCount', 'normalCount']
+    if list(tbl.columns) != want_cols:
+        ck.violation('export_theta columns are %r' % list(tbl.columns), case, clause='C20_theta_rows', code=list(tbl.columns))
+        return 1
+    if not rows:
+        if len(tbl):
+            ck.violation('export_theta of an empty table has rows', case, clause='C20_theta_rows', code=len(tbl))
+            return 1
+        if model != 'empty':
+            ck.tie_break('model export_theta of an empty table differs', case, code='empty', model=model)
+        return 0
+    code = [[str(a), int(b), int(c), int(d), int(e), int(f)] for a, b, c, d, e, f in tbl.values.tolist()]
+    for col in ('tumorCount', 'normalCount', 'chrm'):
+        if not np.issubdtype(tbl[col].dtype, np.integer):
+            ck.violation('export_theta column %s has dtype %s' % (col, tbl[col].dtype), case, clause='C20_theta_counts', code=str(tbl[col].dtype))
+            return 1
+    # the written file (as the command writes it)
+    path = os.path.join(scratch, 'out.theta')
+    tbl.to_csv(path, sep='\t', index=False)
+    lines = read_lines(path)
+    os.remove(path)
+    if lines[0] != want_cols or [[f[0]] + [int(x) for x in f[1:]] for f in lines[1:]] != code:
+        ck.violation('THetA file differs from the table', case, clause='C20_theta_rows', code=lines[:4])
+        return 1
+    kept, keys, tv, nv, means = theta_oracle(case, en)
+    if not case.get('ungrouped'):
+        if [r[:4] for r in code] != keys:
+            ck.violation('export_theta rows are not the autosomal segments with chrm = rank of first appearance, 0-based start, end '
+                         'and #ID start_<chrm>_<start>:end_<chrm>_<end>', case, clause='C20_theta_rows', code=[r[:4] for r in code][:8],
+                         expected=keys[:8])
+            return 1
+        if code_means is not None and any((a is None) != (b is None) or (a is not None and not vlib.close(a, b))
+                                          for a, b in zip(code_means, means)):
+            ck.violation('ref_means_nbins: reference means are not the means of the normal\'s bins inside each segment', case,
+                         clause='C20_theta_ref_means', code=code_means[:8], expected=[None if m is None else float(m) for m in means][:8])
+            return 1
+        exact = hp and not hw and not (hw and any(r['weight'] > 1 for r in kept))
+        for i, r in enumerate(code):
+            a, b = count_ok(r[4], tv[i], exact), count_ok(r[5], nv[i], exact and not normal)
+            if a is None or b is None:
+                ck.float_ambiguous += 1
+            if a is False or b is False:
+                ck.violation('export_theta: read counts of row %d are not round(nbins * 200 * (2^log2 * 500) / 100)' % i, case,
+                             clause='C20_theta_counts', code=r[4:], expected=[float(tv[i]), None if nv[i] is None else float(nv[i])],
+                             row_index=i)
+                return 1
+    # model vs code
+    if isinstance(model, Err) or model == 'empty':
+        ck.tie_break('model export_theta fails where the code does not', case, code=code[:6], model=model)
+        return 0
+    m_rows, m_vals, m_keys = model
+    if not case.get('ungrouped') and m_keys != keys:
+        raise RuntimeError('Coq Spec.Export.sp_theta_key disagrees with the python oracle on %r: %r vs %r' % (case, m_keys, keys))
+    ok = len(m_rows) == len(code)
+    if ok:
+        m_tv, m_nv = m_vals[0], m_vals[1]
+        exact = hp and not hw
+        for i, (m, c) in enumerate(zip(m_rows, code)):
+            if m[:4] != c[:4]:
+                ok = False
+                break
+            for j, v in ((4, m_tv[i]), (5, m_nv[i])):
+                if m[j] != c[j]:
+                    st = count_ok(c[j], v, exact and (j == 4 or not normal))
+                    if st is None:
+                        ck.float_ambiguous += 1
+                    else:
+                        ok = False
+    if not ok:
+        ck.tie_break('model export_theta differs from the code', case, code=code[:6], model=m_rows[:6])
+    elif code_means is not None:
+        mm = m_vals[2]
+        if len(mm) != len(code_means) or any((a is None) != (b is None) or (a is not None and not vlib.close(a, b))
+                                             for a, b in zip(code_means, mm)):
+            ck.tie_break('model reference means differ from ref_means_nbins', case, code=code_means[:6], model=mm[:6])
+    return 0
+
+
+# --------------------------------------------------------------------------------------
 # command line
 
 
@@ -1245,6 +1872,96 @@ def check_cli_samples(ck, scratch, n):
         vlib.shutil.rmtree(d, ignore_errors=True)
 
 
+def check_cli_ogt_theta(ck, scratch, n):
+    """`cnvkit.py export nexus-ogt <cnr> <vcf>` and `export theta <cns> [-r <cnr>]` on written files: the command's file must be
+    the table the API call gives on the loaded inputs, and that call is checked like every other case"""
+    from cnvlib import export
+    from cnvlib.cmdutil import read_cna, load_het_snps
+    rng = ck.rng
+    for it in range(n):
+        d = os.path.join(scratch, 'clio%d' % it)
+        os.makedirs(d, exist_ok=True)
+        # ---- nexus-ogt
+        case = gen_ogt_case(rng)
+        if case['bins']:
+            cnr = os.path.join(d, 'b.cnr')
+            with open(cnr, 'w') as fh:
+                fh.write('chromosome\tstart\tend\tgene\tlog2%s\n' % ('\tweight' if case['has_weight'] else ''))
+                for b in case['bins']:
+                    fh.write('%s\t%d\t%d\t-\t%s%s\n' % (b['chrom'], b['start'], b['end'], fmt_float(b['log2']),
+                                                        ('\t' + ('' if b['weight'] is None else fmt_float(b['weight']))) if case['has_weight'] else ''))
+            vcf = os.path.join(d, 'v.vcf')
+            chroms = []
+            for b in case['bins']:
+                if b['chrom'] not in chroms:
+                    chroms.append(b['chrom'])
+            with open(vcf, 'w') as fh:
+                fh.write('##fileformat=VCFv4.2\n')
+                for c in chroms:
+                    fh.write('##contig=<ID=%s,length=500000000>\n' % c)
+                fh.write('##FORMAT=<ID=GT,Number=1,Type=String,Description="g">\n##FORMAT=<ID=AD,Number=R,Type=Integer,Description="a">\n'
+                         '##FORMAT=<ID=DP,Number=1,Type=Integer,Description="d">\n#CHROM\tPOS\tID\tREF\tALT\tQUAL\tFILTER\tINFO\tFORMAT\tT\n')
+                seen = set()
+                for v in case['variants']:
+                    if (v['chrom'], v['start']) in seen:
+                        continue
+                    seen.add((v['chrom'], v['start']))
+                    alt = int(round((0.5 if v['freq'] is None else v['freq']) * 40))
+                    gt = {0.0: '0/0', 0.5: '0/1', 1.0: '1/1'}[v['zyg']]
+                    fh.write('%s\t%d\t.\tA\tC\t.\tPASS\t.\tGT:AD:DP\t%s:%d,%d:40\n' % (v['chrom'], v['start'] + 1, gt, 40 - alt, alt))
+            out = os.path.join(d, 'o.ogt')
+            argv = ['export', 'nexus-ogt', cnr, vcf, '-o', out] + (['-w', str(case['min_weight'])] if case['min_weight'] > 0 else [])
+            mw = case['min_weight'] if case['min_weight'] > 0 else 0.0
+            varr = load_het_snps(vcf, None, None, 20, None)
+            loaded = read_cna(cnr)
+            lb = [dict(chrom=str(c), start=int(s), end=int(e), log2=float(l), weight=(None if w != w else float(w)))
+                  for c, s, e, l, w in zip(loaded['chromosome'], loaded['start'], loaded['end'], loaded['log2'],
+                                           loaded['weight'] if 'weight' in loaded else [float('nan')] * len(loaded))]
+            kept_any = any(not (mw and case['has_weight'] and b['weight'] is not None and b['weight'] < mw) for b in lb)
+            if kept_any:
+                run_cli(argv)
+                got = read_lines(out)
+                sub = dict(kind='ogt', bins=lb, has_weight=case['has_weight'], variants=None, paired=False, min_weight=mw)
+                check_ogt(ck, sub, scratch, varr=varr, src='cli|')
+                from cnvlib.cmdutil import write_dataframe
+                ref = os.path.join(d, 'ref.ogt')
+                write_dataframe(ref, export.export_nexus_ogt(read_cna(cnr), varr, mw))
+                if got != read_lines(ref):
+                    ck.violation('cnvkit.py export nexus-ogt writes another table than export_nexus_ogt on the loaded inputs', sub,
+                                 clause='C20_nexus_ogt', code=got[:5], expected=read_lines(ref)[:5])
+        # ---- theta
+        case = gen_theta_case(rng)
+        if case['rows'] and not case.get('ungrouped') and (case['hp'] or not case['normal']):
+            cns = os.path.join(d, 't.cns')
+            cols = ['chromosome', 'start', 'end', 'gene', 'log2'] + (['probes'] if case['hp'] else []) + (['weight'] if case['hw'] else [])
+            with open(cns, 'w') as fh:
+                fh.write('\t'.join(cols) + '\n')
+                for r in case['rows']:
+                    f = [r['chrom'], str(r['start']), str(r['end']), '-', fmt_float(r['log2'])]
+                    f += [str(r['probes'])] if case['hp'] else []
+                    f += [fmt_float(r['weight'])] if case['hw'] else []
+                    fh.write('\t'.join(f) + '\n')
+            argv = ['export', 'theta', cns, '-o', os.path.join(d, 'o.theta')]
+            if case['normal']:
+                ncnr = os.path.join(d, 'n.cnr')
+                with open(ncnr, 'w') as fh:
+                    fh.write('chromosome\tstart\tend\tgene\tlog2\n')
+                    for b in case['normal']:
+                        fh.write('%s\t%d\t%d\t-\t%s\n' % (b['chrom'], b['start'], b['end'], fmt_float(b['log2'])))
+                argv += ['-r', ncnr]
+            run_cli(argv)
+            got = read_lines(os.path.join(d, 'o.theta'))
+            # the command reads (and sorts) the files: compare with the API call on the loaded tables
+            tbl = export.export_theta(read_cna(cns), read_cna(ncnr) if case['normal'] else None)
+            want = [list(tbl.columns)] + [[str(x) for x in r] for r in tbl.values.tolist()]
+            ck.count(['cli-theta', case], nontrivial=True, cls='cli|theta')
+            if got != want:
+                ck.violation('cnvkit.py export theta writes another table than export_theta on the same tables', case,
+                             clause='C20_theta_rows', code=got[:5], expected=want[:5])
+            check_theta(ck, case, scratch, count=False)
+        vlib.shutil.rmtree(d, ignore_errors=True)
+
+
 def load_corpus():
     p = os.path.join(vlib.VERIF, 'corpus', 'c20.json')
     return json.load(open(p)) if os.path.exists(p) else []
@@ -1260,6 +1977,10 @@ def check_case(ck, case, scratch, count=True):
         return check_matrix(ck, case, scratch, count=count)
     if k == 'nexus':
         return check_nexus(ck, case, scratch, count=count)
+    if k == 'ogt':
+        return check_ogt(ck, case, scratch, count=count)
+    if k == 'theta':
+        return check_theta(ck, case, scratch, count=count)
     raise RuntimeError('unknown case kind %r' % k)
 
 
@@ -1297,7 +2018,14 @@ def run(ck, scratch):
                '(model vs code only); SEG: 1..5 samples written as .cns files, chrom_ids default / False / True / None, frame and '
                'written file; CDT/JTV: 1..5 .cnr files incl. bins that differ (dropped / added / shifted / renamed bin, other gene) and '
                'duplicate ids (same basename in another directory, same file twice); nexus-basic; `cnvkit.py export bed|vcf|seg|cdt|jtv|nexus-basic` '
-               'on written files, in-process through commands.parse_args. '
+               'on written files, in-process through commands.parse_args. VCF text: header / column / record lines of every table '
+               'against a direct text oracle and the model\'s text, CIPOS/CIEND against a brute-force margin oracle (bins cut at / inside / '
+               'off the breakpoints, chromosomes without bins). nexus-ogt: 0..3 chromosomes + X/Y, weights incl. 0 / NaN / no column, '
+               'thresholds 0 / 0.3 / 0.5 / 1 / 2 / -1, row labels default / with gaps / permuted, 0..4 variants per bin (het / hom / ref, '
+               'NaN frequency, abutting, all non-heterozygous), paired or not; THetA: autosomes + X/Y, only sex chromosomes, odd names '
+               '(chr1_alt, chr, MT, chr05), probes / weight columns present or not, new- and old-style weights, log2 on exact rounding '
+               'ties (2^-4 x odd probes), normal None / empty / bins cut around the segments / elsewhere, 8% interleaved chromosomes; '
+               'both also through `cnvkit.py export nexus-ogt|theta`. '
                'non-trivial = a filter that removes some but not all rows / a VCF with records / non-empty tables; distinct by case hash')
     if not ck.build_status.get('driver_ok'):
         raise RuntimeError('model driver unavailable')
@@ -1327,16 +2055,29 @@ def run(ck, scratch):
         vlib.shutil.rmtree(os.path.join(scratch, 'mat'), ignore_errors=True)
     for i in range(15 if quick else 200):
         check_nexus(ck, dict(kind='nexus', id='N%d' % i, rows=natural_table(rng, rng.random() < 0.5)), scratch)
+    for _ in range(60 if quick else 1500):
+        check_ogt(ck, gen_ogt_case(rng), scratch)
+    for _ in range(120 if quick else 3000):
+        check_theta(ck, gen_theta_case(rng), scratch)
     check_cli(ck, scratch, 6 if quick else 100)
     check_cli_samples(ck, scratch, 5 if quick else 60)
+    check_cli_ogt_theta(ck, scratch, 4 if quick else 60)
     ck.unproved_remainder = [
         'that numpy 2**v is within 1e-12 of the real function is trusted (the harness supplies the library value to the model as an '
         'exact rational, as in C01)',
         'rows whose exact r*2^log2 lies within 1e-7 (relative) of j+1/2 without being an exact tie are counted float_ambiguous and '
         'their copy number / membership is not compared',
-        'printing of floats (repr in VCF INFO / CDT / JTV, %.6g in SEG and nexus files) and the tokenisation of the written files are '
-        'on the code side of the comparison; the injectivity of the bin label (names without ":") is not proved',
-        'CIPOS/CIEND (assign_ci_start_end) are modelled and compared but have no theorem; export_nexus_ogt and export_theta are not covered',
+        'printing of floats: the two float texts of a VCF record (FOLD_CHANGE = str(2.0 ** log2), FOLD_CHANGE_LOG = str(log2)) are '
+        'oracle strings handed to the text model (everything else of the VCF text -- header lines, column line, record lines, CIPOS/CIEND '
+        'in integer and float columns -- is model text compared line by line); repr in CDT / JTV and %.6g in SEG / nexus files, and the '
+        'tokenisation of those files, stay on the code side; to_csv quoting of a sample id containing a tab / quote is not modelled',
+        'CIPOS/CIEND texts are proved for tables in which every segment has a bin (integer columns); the float rendering when some '
+        'segment has none (0.0 / -100.0 / nan) is modelled and compared only',
+        'THetA: the exp2 values (2**log2, 2**reference mean) are oracle inputs; counts whose exact value lies within 1e-7 of j+1/2 are not '
+        'compared (exact ties are, on the integer-probes path); the reference means are compared to 1e-9; tables whose chromosomes are '
+        'interleaved are outside the row-wise theorems (model vs code only); a normal without a probes column (AttributeError) and a '
+        'nexus-ogt table with no bin left (TypeError) are modelled as error outcomes',
+        'nexus-ogt: a VariantArray without alt_freq column is not modelled; the per-bin BAF clause is C18\'s (Model/VBaf.v reused)',
         'not modelled (stated precondition sp_ids_ok of C20_matrix): a sample id equal to one of merge_samples\' own column names '
         '(chromosome, start, end, gene, label); the model returns MergeReserved for it and the generators never produce such ids',
         'stated precondition of the VCF clauses: the probes column is present and integer (as cnvkit writes segment tables); a missing / '
